@@ -130,6 +130,11 @@ def bounded(ctx, b):
         voice = rng.choice([None, "Bob", "Mary Ann"])
         vclass = rng.choice(["", "", ".loud", ".first.loud", ".a.b.c"])
         for j, lines in enumerate(cues):
+            # (cue identifiers and comment blocks are not cue text)
+            if rng.random() < 0.3:
+                vt += [rng.choice(["NOTE checked by the editor", "NOTE\ntwo lines\nof comment", "NOTE"]), ""]
+            if rng.random() < 0.4:
+                vt.append(rng.choice([str(j + 1), f"intro-{j}", "cue id with blanks", "1a"]))
             vt.append(f"00:0{j + 1}.000 --> 00:0{j + 2}.000")
             for k, ln in enumerate(lines):
                 words = [w.replace("&", "&amp;").replace("<", "&lt;").replace(">", "&gt;") for w in ln.split(" ")]
@@ -139,9 +144,11 @@ def bounded(ctx, b):
                     txt = f"<v{vclass} {voice}>{txt}"
                 vt.append(txt)
             vt.append("")
-        webvtt = "\n".join(vt)
+        eol = rng.choice(["\n", "\n", "\r\n", "\r"])          # the line terminators text files come with
+        webvtt = "\n".join(vt).replace("\n", eol)
         srt = "\n".join(f"{j + 1}\n00:00:0{j + 1},000 --> 00:00:0{j + 2},000\n" + "\n".join(lines) + "\n" for j, lines in enumerate(cues))
         mdvd = "\n".join(f"{{{25 * (j + 1)}}}{{{25 * (j + 2)}}}" + "|".join(lines) for j, lines in enumerate(cues)) + "\n"
+        srt, mdvd = srt.replace("\n", eol), mdvd.replace("\n", eol)
         docs = {"dfxp": (DFXPReader, dfxp, "en"), "sami": (SAMIReader, sami, "en-US"), "webvtt": (WebVTTReader, webvtt, "en-US"),
                 "srt": (SRTReader, srt, "en-US"), "microdvd": (MicroDVDReader, mdvd, "und")}
         for fmt, (R, doc, lang) in docs.items():
